@@ -2045,11 +2045,13 @@ func (g *pureGen) translate(w whiteEntry, pp *purePkg) *fnResult {
 	}
 	func() {
 		fd, ok := pp.funcs[w.key()]
-		if !ok || pp.funcFile[w.key()] != w.file || fd.Body == nil {
-			unrec(filepath.Join(pp.dir, w.file), "function "+w.key()+" not found in this file")
+		// a name is unique in a Go package: the file a function lives in is not part of its meaning (the whitelist's
+		// file is where it was at the pinned commit, kept for the reader only)
+		if !ok || fd.Body == nil {
+			unrec(pp.dir, "function "+w.key()+" not found in this package")
 			return
 		}
-		t := &tr{g: g, pp: pp, fname: w.file, env: map[string]*varInfo{}}
+		t := &tr{g: g, pp: pp, fname: pp.funcFile[w.key()], env: map[string]*varInfo{}}
 		defer func() {
 			if r := recover(); r != nil {
 				rf, ok := r.(refusal)
